@@ -126,7 +126,7 @@ def mutate(root, rnd, t, ops=None):
         elif op == "corrupt-content-unicode":
             n.content = rnd.choice(UNICODE_POOL)
         elif op == "add-attr":
-            n.add_attribute(rnd.choice(["id", "zzAttr", "scope", "system", "xml:lang", ""]), rnd.choice(UNICODE_POOL))
+            n.add_attribute(rnd.choice(["id", "zzAttr", "scope", "system", "xml:lang", "", "a:b:c", "::", "x:id", "{0}"]), rnd.choice(UNICODE_POOL))
         elif op == "remove-attr" and n.attributes:
             n.remove_attribute(rnd.choice(list(n.attributes)))
         elif op == "corrupt-attr" and n.attributes:
